@@ -188,6 +188,37 @@ func discoverUDP(c *Ctx) *udpModel {
 			m.get = f
 		}
 	}
+	if m.closeAll == nil {
+		// the walk over the table may live in a helper that is handed the map (expireAll(m.entries, now))
+		for _, f := range p.FnsIn("service") {
+			if !recvIs(f, m.mapT) || f.Signature.Params().Len() != 0 || f.Signature.Results().Len() > 1 {
+				continue
+			}
+			for _, cl := range Calls0(f) {
+				h := cl.Common().StaticCallee()
+				if h == nil || !p.InRepo(h) || len(h.Blocks) == 0 {
+					continue
+				}
+				hasRange := false
+				for _, b := range h.Blocks {
+					for _, ins := range b.Instrs {
+						if _, ok := ins.(*ssa.Range); ok {
+							hasRange = true
+						}
+					}
+				}
+				passesTable := false
+				for _, a := range cl.Common().Args {
+					if p.AnyFrom(a, eng.Plain, func(v ssa.Value) bool { return eng.IsFieldLoad(v, m.mapT, m.mapField) }) {
+						passesTable = true
+					}
+				}
+				if hasRange && passesTable {
+					m.closeAll = f
+				}
+			}
+		}
+	}
 	if m.get == nil || m.add == nil || m.connWrite == nil || m.connRead == nil {
 		return nil
 	}
@@ -225,6 +256,9 @@ func discoverUDP(c *Ctx) *udpModel {
 	}
 	return m
 }
+
+// Calls0: the call instructions of f.
+func Calls0(f *ssa.Function) []ssa.CallInstruction { return eng.Calls(f) }
 
 func hasLoop(f *ssa.Function) bool {
 	for _, g := range eng.Family(f) {
